@@ -16,8 +16,11 @@ C17Configs == { [phase |-> 0, fabric |-> 0, regime |-> 4, n |-> 5],
 \* head before an underscore ("1_ol" / "1"), an archive-member kind word ("meta", "fractions_1": members
 \* meta_meta, fractions_fractions_1), a blank inside and the empty postfix (members meta_, distinct from the
 \* whole-file member meta).
-PfFamily == {"1", "10", "q", "ol_1", "en_1", "1_ol", "meta", "fractions_1", "a b", ""}
-PfFamilyQ == {"1", "10", "ol_1", "en_1", "meta", ""}
+\* "1.5": the head before a DOT is another postfix ("1"): archive member meta_1.5.npy beside meta_1.npy - a tool that
+\* strips "the extension" from member names confuses them.  (A postfix that itself ends in ".npy" is left out: numpy's
+\* archive writer does not append the extension a second time, so "1.npy" and "1" name the same member by construction.)
+PfFamily == {"1", "10", "q", "ol_1", "en_1", "1_ol", "meta", "fractions_1", "a b", "", "1.5"}
+PfFamilyQ == {"1", "10", "ol_1", "1.5", "meta", ""}
 PfFamilyT == {"1", "10", "ol_1", ""}      \* thorough enumeration with ANY mineral as the k-th saver
 C17Pars == { [M |-> 125, chi |-> 3, asm |-> <<0, 1>>, phiOl |-> 7, x |-> <<5, 0>>] }
 \* construction and a few updates, then persistence only
